@@ -48,3 +48,7 @@ Definition aligned_realloc (c : gcfg) (s : gstate) (p newsize oldsize : Z) : opt
   end.
 
 Definition aligned_deallocall (s : gstate) : gstate := mkgstate (arena_deallocall (g_arena s)) (g_hdr s).
+
+(* "If size is zero or the operation fails, then returns nilptr" (doc of AlignedAllocatorT:alloc and
+   of the Allocator interface): a zero size request leaves the allocator alone and returns nilptr *)
+Definition aligned_alloc_zero_nil_full : Prop := forall c s, aligned_alloc c s 0 = Some (s, 0).
